@@ -2112,7 +2112,9 @@ class Parallel(Logger):
             self._original_iterator = iterator
             if hasattr(pre_dispatch, "endswith"):
                 pre_dispatch = eval_expr(pre_dispatch.replace("n_jobs", str(n_jobs)))
-            self._pre_dispatch_amount = pre_dispatch = int(pre_dispatch)
+            # At least one batch has to be dispatched for the run to start:
+            # an expression such as '0.4*n_jobs' can round down to 0.
+            self._pre_dispatch_amount = pre_dispatch = max(int(pre_dispatch), 1)
 
             # The main thread will consume the first pre_dispatch items and
             # the remaining items will later be lazily dispatched by async
